@@ -100,6 +100,15 @@ def fam_chars():
     return out
 
 
+def fam_labels():
+    out = []
+    labs = [(c, h) for c in (1, 2, 3) for h in ('♥', '💕', '💛', '💝', '❤')]
+    for (c1, h1) in labs:
+        for (c2, h2) in labs:
+            out.append('형%s%s 항. 형%s%s 형.... 항.' % ('.' * c1, h1, '.' * c2, h2))
+    return out
+
+
 def fam_general(n, observers):
     out = []
     for b in bodies(G16, n):
@@ -315,6 +324,7 @@ def run_c03(tier):
         fams['general'] = fam_general(2, ['', '항. 항.']) + fam_general(3, [''])[::3]
         fams['resume'] = fam_resume(1) + fam_resume(2)[::5]
         fams['chars'] = fam_chars()
+        fams['labels'] = fam_labels()
         standalone = fam_templates()[::12] + fam_chars()[::9] + [g + ' ' + t for _, g in GADGETS for _, t in TRIGGERS][::2]
     else:
         fams['templates'] = fam_templates()
@@ -323,6 +333,7 @@ def run_c03(tier):
         fams['general'] = fam_general(3, ['', '항. 항.']) + fam_general(4, [''])[::4]
         fams['resume'] = fam_resume(2) + fam_resume(3)[::6]
         fams['chars'] = fam_chars()
+        fams['labels'] = fam_labels()
         standalone = fam_templates() + fam_chars() + fam_resume(1)
     tasks = []
     for c in chunks(standalone, 8):
